@@ -53,10 +53,13 @@ ENCODED = [
 ]
 BOUNDS = {
     "quick": "tensor orders 1-3, every mode size d_k in [1,4] (all symbolic simultaneously), every in-range multi-index; every mode, every (skip_begin, skip_end, ravel_tensors) with "
-    "skip_begin+skip_end < order, every ordered (row_modes, column_modes) split incl. column_modes=None and int arguments; "
-    "matricize validation: all argument pairs over modes {-1..order} with len(row)+len(col) <= order+1; elem/dtype tables: shapes {1,2,3}^order, order <= 3",
-    "thorough": "orders 1-4 with d_k in [1,4], order 5 with d_k in [1,2]; same option spaces; matricize validation total length <= order+1 (order <= 4), <= order (order 5); "
-    "elem/dtype tables: shapes {1,2,3}^order, order <= 4",
+    "skip_begin+skip_end < order and mode < order-skip_begin-skip_end, documented defaults, every ordered (row_modes, column_modes) split incl. column_modes=None and int arguments; "
+    "per obligation 20 s (first 8 s with every size symbolic, then case split over the sizes; none needed at these orders); "
+    "matricize validation: all argument pairs over modes {-1..order} with len(row)+len(col) <= order+1; elem/dtype tables: shapes {1,2,3}^order / listed shapes, order <= 3",
+    "thorough": "orders 1-4 with d_k in [1,4], order 5 with d_k in [1,2]; same option spaces; per obligation 120 s: 30 s with every mode size symbolic (QF_NIA), and if z3 answers unknown "
+    "the same claim is decided by case split over (d_1..d_n) in [1,B]^n with index and reshape witnesses symbolic (QF_LIA per case) -- needed only at order 4 (36 of 2175 configurations on an idle machine: "
+    "matricize with all four modes in one group in permuted order, partial_unfold ravel_tensors=True mode 1/2); the method is recorded per obligation; "
+    "matricize validation total length <= order+1 (order <= 4), <= order (order 5); elem/dtype tables: order <= 4",
 }
 OUTSIDE = [
     "orders > 5, mode sizes > B, size-0 modes",
@@ -393,6 +396,8 @@ class _Run:
             inputs.update(extra)
         path = harness.write_replay(PID, self.cfg["key"], name, inputs)
         ok, out = harness.run_replay(PID, path)
+        # line-anchored on the replay's own verdict ("NOT-REPRODUCED property=" contains "REPRODUCED property=" as a substring)
+        ok = ok and any(line.startswith("REPRODUCED property=") for line in out.splitlines())
         if ok:
             return "violated", {"replay": path, "inputs": inputs}
         try:
@@ -407,10 +412,15 @@ class _Run:
         method = "all mode sizes symbolic"
         shape = None
         if r == "unknown" and dims and "B" in self.cfg:
-            r, m, dt2, ncases, shape = S.decide_split(assumptions, goal, dims, self.cfg["B"], self.timeout_ms - dt * 1000, self.stats)
+            r, m, dt2, ncases, shape = S.decide_split(assumptions, goal, dims, self.cfg["B"], max(self.timeout_ms - dt * 1000, self.timeout_ms / 2), self.stats)
             dt += dt2
             method = f"undecided in {self.first_ms // 1000}s with all sizes symbolic; decided by case split over the mode sizes ({ncases} cases, index and witnesses symbolic)"
         if r == "unsat":
+            if dims and "B" in self.cfg:
+                # the assumptions of a discharged obligation (index range + witness facts) must be satisfiable at full size
+                rv, _, _ = S.decide(list(assumptions) + [dk == self.cfg["B"] for dk in dims], z3.BoolVal(False), 10000, None)
+                if rv != "sat":
+                    self.records.append({"name": "__vacuity__", "verdict": "vacuous" if rv == "unsat" else "vacuity-unknown", "seconds": 0.0, "path": [name]})
             return self.rec(name, "proved", dt, method=method)
         if r == "unknown":
             return self.rec(name, "inconclusive", dt, note=f"z3 unknown within {self.timeout_ms // 1000}s ({method})")
